@@ -1,5 +1,5 @@
 import Witverif.Proofs.Scalar
-import Witverif.Generated.ScalarExprs
+import Witverif.Generated.ScalarExprs.Rust
 /-! # C14, backend `rust`: one theorem per scalar ABI instruction
 
 `G.rust_I` is the list of conversion expressions the `rust` generator emitted for instruction `I`
